@@ -74,6 +74,12 @@ package responsemanager
 //@   -- C05: a network failure retires a response that is not running, also one that only waits for its final message
 //@   ensures err == queryexecutor.ErrNetworkError && err != nil && old(requestID in rm.inProgressResponses) && old(rm.inProgressResponses[requestID].state) != graphsync.Running ==>
 //@              !(requestID in rm.inProgressResponses) && !prot[old(rm.inProgressResponses[requestID].peer)][tagOf(requestID)]
+//@   -- C05: ... and the network failure of a RUNNING response is left on its error signal whatever was waiting there (a cancel
+//@   -- command the executor has not picked up yet, say): the failure has closed the response stream, so it alone decides how
+//@   -- the response ends - the executor's next poll, or the end of its task (finishTask), must find it
+//@   ensures err == queryexecutor.ErrNetworkError && err != nil && old(requestID in rm.inProgressResponses) && old(rm.inProgressResponses[requestID].state) == graphsync.Running ==>
+//@              errSigTok[old(rm.inProgressResponses[requestID].signals.ErrSignal)] > 0
+//@              && errSigVal[old(rm.inProgressResponses[requestID].signals.ErrSignal)] == queryexecutor.ErrNetworkError
 
 //@ func ResponseManager.unpauseRequest
 //@   lenient
@@ -134,8 +140,12 @@ package responsemanager
 //@ ghost errSigTok map[ref]int       -- error signals waiting on the channel
 //@ ghost errSigVal map[ref]error     -- the waiting signal
 //@ onsend error(ch, v) in abortRequest: errSigTok := upd(errSigTok, ch, 1) ; errSigVal := upd(errSigVal, ch, v)
-//@ onsend recv:error(ch, v) in finishTask: assume errSigTok[ch] > 0 && v == errSigVal[ch] ; errSigTok := upd(errSigTok, ch, errSigTok[ch] - 1)
+//@ onsend recv:error(ch, v) in finishTask: assume errSigTok[ch] > 0 && v == errSigVal[ch] ; errSigTok := upd(errSigTok, ch, 0)
 //@ onsend default:error(ch, v) in finishTask: assume errSigTok[ch] == 0
+//@ onsend recv:error(ch, v) in abortRequest: assume errSigTok[ch] > 0 && v == errSigVal[ch] ; errSigTok := upd(errSigTok, ch, 0)
+//@ onsend default:error(ch, v) in abortRequest: assume errSigTok[ch] == 0
+//@ -- the default arm next to a SEND is taken only when the (capacity 1) channel is full
+//@ onsend sendfull:error(ch, v) in abortRequest: assume errSigTok[ch] >= 1
 //@ func ResponseManager.finishTask
 //@   lenient
 //@   safety off
